@@ -34,12 +34,18 @@ func NewPermission(addr net.Addr, log logging.LeveledLogger, timeout time.Durati
 
 func (p *Permission) start(lifetime time.Duration) {
 	p.lifetimeTimer = time.AfterFunc(lifetime, func() {
-		p.allocation.RemovePermission(p.Addr)
+		p.allocation.expirePermission(p)
 	})
 }
 
-func (p *Permission) refresh(lifetime time.Duration) {
-	if !p.lifetimeTimer.Reset(lifetime) {
-		p.log.Errorf("Failed to reset permission timer for %v %v", p.Addr, p.allocation.fiveTuple)
+// refresh restarts the timeout. It reports false when the timer has already
+// fired (or was stopped): the permission is on its way out and cannot be kept.
+func (p *Permission) refresh(lifetime time.Duration) bool {
+	if p.lifetimeTimer.Reset(lifetime) {
+		return true
 	}
+	// Reset re-arms even a timer that has fired; the expiry under way stays the last one.
+	p.lifetimeTimer.Stop()
+
+	return false
 }
